@@ -418,11 +418,14 @@ class Solver(object):
                     self.bs.merge(v)
 
     def solve(self):
-        self.satisfy()
-        lastcost = maxsize
-        cost = self.bs.cost()
-        while abs(lastcost - cost) > 0.0001:
+        # A satisfy() pass can split and re-merge blocks without changing
+        # the cost, so a stationary cost does not mean we are done. Iterate
+        # until a pass leaves the set of active constraints unchanged.
+        state = None
+        while True:
             self.satisfy()
-            lastcost = cost
-            cost = self.bs.cost()
-        return cost
+            newstate = [(c.active, c.unsatisfiable) for c in self.cs]
+            if newstate == state:
+                break
+            state = newstate
+        return self.bs.cost()
